@@ -17,6 +17,7 @@ HERE = os.path.dirname(os.path.abspath(__file__))
 sys.path.insert(0, HERE)
 import cont_tie
 import math_tie
+import pre_audit
 PRE = ("From Coq Require Import ZArith List Floats.\n"
        "From Celer Require Import Base.Num Base.NumF C18.Algorithms C18.Grids C18.RunF.\n"
        "Import ListNotations.\nOpen Scope float_scope.\n")
@@ -127,8 +128,11 @@ def gen_discrete(ctx):
         size = math.prod(dims)
         for coords in itertools.product(*[range(dm) for dm in dims]):
             L.append("hsi %d %s %s" % (n, " ".join(map(str, dims)), " ".join(map(str, coords))))
-        for idx in range(size):
+        # [0, size]: the inverse indexer's precondition is index <= hyperslab_size(dims), so the
+        # one-past-the-end index is an admitted input (seeded change C18-m5 differed only there)
+        for idx in range(size + 1):
             L.append("hsc %d %s %d" % (n, " ".join(map(str, dims)), idx))
+        ctx.count("edge:hyperslab-inverse index==size")
     # ragged-right indexers
     for _ in range(25 if not thorough else 120):
         n = r.randrange(1, 7)
@@ -232,11 +236,20 @@ def discrete_oracle(line, impl, ref):
             return "hyperslab index differs from the row-major reference"
     elif cmd == "hsc":
         n = int(t[1]); dims = list(map(int, t[2:2 + n])); idx = int(t[2 + n])
-        co = []
-        for dm in reversed(dims):
-            co.append(idx % dm); idx //= dm
-        if list(map(int, impl)) != list(reversed(co)):
-            return "hyperslab coordinates differ from the row-major reference"
+        # mixed-radix digits; the LEADING digit is the whole remaining quotient (== dims[0] at idx == size)
+        co, q = [], idx
+        for dm in reversed(dims[1:]):
+            co.append(q % dm); q //= dm
+        co.append(q)
+        got = list(map(int, impl))
+        if got != list(reversed(co)):
+            return "hyperslab coordinates of index %d (size %d) are %s, the exact mixed-radix reference gives %s" % (
+                idx, math.prod(dims), got, list(reversed(co)))
+        flat = 0
+        for dm, c in zip(dims, got):
+            flat = flat * dm + c
+        if flat != idx:
+            return "hyperslab coordinates %s of index %d flatten back to %d" % (got, idx, flat)
     elif cmd == "rri":
         n = int(t[1]); offs = list(map(int, t[2:2 + n])); a, b = int(t[2 + n]), int(t[3 + n])
         if int(impl[0]) != offs[a] + b:
@@ -335,6 +348,19 @@ def gen_grids(ctx):
     # corpus: the replay of finding F3 (UniformGrid::find one ulp below back())
     cases.append(("ufind", (0.0, 1.0, 4, math.nextafter(1.0, 0.0))))
     cases.append(("finterpu", (0.0, 1.0, 4, math.nextafter(1.0, 0.0))))
+    # extreme values admitted by the preconditions: value == front(), 2-point grids
+    for (f_, b_, n_) in ((0.0, 1.0, 2), (-3.0, 5.0, 2), (1.0, 2.0, 3)):
+        cases.append(("ufind", (f_, b_, n_, f_))); cases.append(("finterpu", (f_, b_, n_, f_)))
+        ctx.count("edge:grid find value==front"); ctx.count("edge:find_interp value==front")
+        if n_ == 2:
+            ctx.count("edge:uniform grid size==2")
+    for g_ in ([1.0, 2.0], [-1.0, math.nextafter(-1.0, 0.0)], [0.5, 1.5, 4.0]):
+        cases.append(("nfind", (g_, g_[0]))); cases.append(("finterpn", (g_, g_[0])))
+        ctx.count("edge:grid find value==front"); ctx.count("edge:find_interp value==front")
+        if len(g_) == 2:
+            ctx.count("edge:nonuniform grid size==2")
+    cases.append(("twod", ([0.0, 1.0], [1.0, 2.0], [1.0, 2.0, 3.0, 4.0], 0.0, 1.0)))
+    ctx.count("edge:twod x==front"); ctx.count("edge:twod y==front")
     ngrids = 24 if not thorough else 200
     for gi in range(ngrids):
         kind = r.randrange(4)
@@ -609,6 +635,7 @@ def run(ctx):
     ctx.log("range/span: %d cases" % nc)
     nm = math_tie.run(ctx, batched_eval)
     ctx.log("scalar helpers: %d cases" % nm)
+    pre_audit.report(ctx, vlib.REPO)
     if not proofs_ok and not ctx.violations:
         ctx.violation("proof-broken", "Properties_C18.v no longer checks", ctx.broken_proof, no_input=True)
     ctx.coverage["rule"] = ("discrete cases = command lines (algorithm, comparator/predicate id, array): exhaustive lists over {0,1,2} "
